@@ -109,10 +109,36 @@ theorem C13_state_during_teardown (cid : CtxId) (cur : Option CtxId) (be : Block
     (runTeardown cid cur be st x).1.state = x.state := by
   exact (runTeardown_ext cid cur be st x).state
 
+/-- … also on the stack of a teardown that is interrupted by a cancellation. -/
+theorem C13_state_during_teardown_mid (cid : CtxId) (cur : Option CtxId) (be : BlockEnd) (k : Nat)
+    (st : List Cb) (x : Ctx) :
+    (runTeardown cid cur be (midEff be k st) x).1.state = x.state :=
+  C13_state_during_teardown cid cur be (midEff be k st) x
+
 /-- After the block has been left the context is closed, even if teardown raised. -/
 theorem C13_closed_after_exit (w : World) (t : TaskId) (c : CtxId) (be : BlockEnd) (x : Ctx)
     (hx : w.ctx? c = some x) (hs : x.state = .opened) :
     ((step w (.exit t c be)).1.ctx? c).map Ctx.state = some .closed := by
+  simp only [step, hx, hs, ne_eq, not_true_eq_false, if_false]
+  unfold removeChild
+  split
+  · simp only [World.ctx?_setCur, World.ctx?_setCtx_same, Option.map_some]
+  · next p hp =>
+    split
+    · simp only [World.ctx?_setCur, World.ctx?_setCtx_same, Option.map_some]
+    · next px hpx =>
+      by_cases hc : p = c
+      · subst hc
+        rw [World.ctx?_setCur, World.ctx?_setCtx_same] at hpx
+        cases hpx
+        simp only [World.ctx?_setCtx_same, Option.map_some]
+      · simp only [World.ctx?_setCtx_other _ _ _ _ hc, World.ctx?_setCur,
+          World.ctx?_setCtx_same, Option.map_some]
+
+/-- … also when the scope was cancelled while the teardown was running. -/
+theorem C13_closed_after_exit_mid (w : World) (t : TaskId) (c : CtxId) (be : BlockEnd) (k : Nat)
+    (x : Ctx) (hx : w.ctx? c = some x) (hs : x.state = .opened) :
+    ((step w (.exitMid t c be k)).1.ctx? c).map Ctx.state = some .closed := by
   simp only [step, hx, hs, ne_eq, not_true_eq_false, if_false]
   unfold removeChild
   split
@@ -139,6 +165,34 @@ theorem C13_children_reported (w : World) (t : TaskId) (c : CtxId) (be : BlockEn
     (step w (.exit t c be)).2.getLast? = some .corruption := by
   have hch2 : (runTeardown c (w.curOf t) be (effStack be x.tds) { x with state := .closing, tds := [] }).1.children
       = x.children := (runTeardown_ext c (w.curOf t) be (effStack be x.tds) _).children
+  simp only [step, hx, hs, ne_eq, not_true_eq_false, if_false]
+  rw [List.getLast?_append]
+  simp only [hnone, hch2, List.isEmpty_nil, Bool.not_true, Bool.false_eq_true, if_false,
+    List.getLast?_cons_cons, List.getLast?_singleton, Option.some_or]
+  have hne : x.children.isEmpty = false := by
+    cases hc : x.children with
+    | nil => exact absurd hc hch
+    | cons a l => rfl
+  rcases hroot with h | h
+  · subst h
+    simp [hne]
+  · cases be with
+    | ret => simp [hne]
+    | raised e =>
+      have : x.parent.isNone = false := by
+        cases hp : x.parent with
+        | none => exact absurd hp h
+        | some p => rfl
+      simp [hne, this]
+
+/-- … also when the scope was cancelled while the teardown was running. -/
+theorem C13_children_reported_mid (w : World) (t : TaskId) (c : CtxId) (be : BlockEnd) (k : Nat)
+    (x : Ctx) (hx : w.ctx? c = some x) (hs : x.state = .opened) (hch : x.children ≠ [])
+    (hnone : (runTeardown c (w.curOf t) be (midEff be k x.tds) { x with state := .closing, tds := [] }).2.2 = [])
+    (hroot : be = .ret ∨ x.parent ≠ none) :
+    (step w (.exitMid t c be k)).2.getLast? = some .corruption := by
+  have hch2 : (runTeardown c (w.curOf t) be (midEff be k x.tds) { x with state := .closing, tds := [] }).1.children
+      = x.children := (runTeardown_ext c (w.curOf t) be (midEff be k x.tds) _).children
   simp only [step, hx, hs, ne_eq, not_true_eq_false, if_false]
   rw [List.getLast?_append]
   simp only [hnone, hch2, List.isEmpty_nil, Bool.not_true, Bool.false_eq_true, if_false,
